@@ -103,8 +103,25 @@ func (n *SeqNode) render(w *trimWriter, ctx nodeContext) Error {
 }
 
 func (n *TagNode) render(w *trimWriter, ctx nodeContext) Error {
-	err := wrapRenderError(n.renderer(w, rendererContext{ctx, n, nil}), n)
+	err := wrapRenderError(n.renderer(tagWriter{w}, rendererContext{ctx, n, nil}), n)
 	return err
+}
+
+// A tagWriter is what a tag writes its output to. Whitespace control is about the
+// literal text next to a tag: like a value, the output of a tag (an included
+// template, a cycle value) is emitted exactly. A pending right-trim does not apply
+// to it, and a later left-trim does not reach back into it.
+type tagWriter struct{ w *trimWriter }
+
+func (tw tagWriter) Write(b []byte) (int, error) {
+	tw.w.trim = false
+	if _, err := tw.w.Write(b); err != nil {
+		return 0, err
+	}
+	if _, err := tw.w.Flush(); err != nil {
+		return 0, err
+	}
+	return len(b), nil
 }
 
 func (n *TextNode) render(w *trimWriter, _ nodeContext) Error {
